@@ -25,8 +25,13 @@ type concResult struct {
 	Packed int    `json:"packed"`
 	Moves  int    `json:"moves"`
 	Flips  int    `json:"flips"`
-	Bad    []bad  `json:"bad"`
-	Err    string `json:"err,omitempty"`
+	// backend requests of the processor that ended with an error reply (connect failures ...): with any, only the
+	// stored form of what did reach a node is judged
+	Failures int64 `json:"failures"`
+	// connections that did not end at the processor under test (another process on the same port); they were replaced
+	Strangers int64  `json:"strangers"`
+	Bad       []bad  `json:"bad"`
+	Err       string `json:"err,omitempty"`
 }
 
 func concurrent(args []string) error {
@@ -107,7 +112,7 @@ func concurrent(args []string) error {
 		go func(ci int) {
 			defer wg.Done()
 			rnd := rand.New(rand.NewSource(cli.Seed()*100 + int64(ci)))
-			c, err := sut.Dial(e.px.Addr)
+			c, err := dialVerified(e.px, e.cl, fmt.Sprintf("cc%d", ci))
 			if err != nil {
 				addBad("read-failed", "dial: "+err.Error())
 				return
@@ -159,10 +164,14 @@ func concurrent(args []string) error {
 				case keysInUse <- base:
 				default:
 				}
-				v, err := c.DoB(5*time.Second, args...)
+				v, err := c.DoB(replyTO, args...)
 				if err != nil {
 					addBad("read-failed", fmt.Sprintf("%s %s: %v", name, base, err))
 					return
+				}
+				if infraErr(v) {
+					addBad("read-failed", fmt.Sprintf("%s %s: %v", name, base, v))
+					continue
 				}
 				if v.IsErr() {
 					addBad("write-failed/concurrent", fmt.Sprintf("%s %s: %v", name, base, v))
@@ -202,7 +211,7 @@ func concurrent(args []string) error {
 				switch {
 				case hash && rnd.Intn(2) == 0:
 					rname = "HGETALL"
-					v, err = c.Do(5*time.Second, "HGETALL", base)
+					v, err = c.Do(replyTO, "HGETALL", base)
 					m := pairs(v)
 					for j := range got {
 						got[j] = m[fields[j]]
@@ -210,7 +219,7 @@ func concurrent(args []string) error {
 				case hash:
 					rname = "HGET"
 					for j := range got {
-						v, err = c.Do(5*time.Second, "HGET", base, fields[j])
+						v, err = c.Do(replyTO, "HGET", base, fields[j])
 						if err != nil {
 							break
 						}
@@ -218,7 +227,7 @@ func concurrent(args []string) error {
 					}
 				case rnd.Intn(2) == 0:
 					rname = "MGET"
-					v, err = c.Do(5*time.Second, append([]string{"MGET"}, keys...)...)
+					v, err = c.Do(replyTO, append([]string{"MGET"}, keys...)...)
 					for j := range got {
 						if j < len(v.Arr) {
 							got[j] = v.Arr[j].Str
@@ -227,7 +236,7 @@ func concurrent(args []string) error {
 				default:
 					rname = "GET"
 					for j := range got {
-						v, err = c.Do(5*time.Second, "GET", keys[j])
+						v, err = c.Do(replyTO, "GET", keys[j])
 						if err != nil {
 							break
 						}
@@ -237,6 +246,10 @@ func concurrent(args []string) error {
 				if err != nil {
 					addBad("read-failed", fmt.Sprintf("%s %s: %v", rname, base, err))
 					return
+				}
+				if infraErr(v) {
+					addBad("read-failed", fmt.Sprintf("%s %s: %v", rname, base, v))
+					continue
 				}
 				for j := range got {
 					if !bytes.Equal(got[j], origs[j]) {
@@ -249,5 +262,7 @@ func concurrent(args []string) error {
 	wg.Wait()
 	atomic.StoreInt32(&stop, 1)
 	side.Wait()
+	res.Failures = e.failures()
+	res.Strangers = strangers.Load()
 	return w.Write(res)
 }
